@@ -774,6 +774,8 @@ def _process(ctx, cases, search=True):
         _search(ctx, [d['case'] for d in ctx.disagreements[ndis0:ndis0 + 3]])
         if not ctx.violations:
             _search_cells(ctx, ctx.disagreements[ndis0:ndis0 + 40])
+        if not ctx.violations:
+            _search_rings(ctx, ctx.disagreements[ndis0:])
 
 
 def _ratio_bin(x):
@@ -854,6 +856,42 @@ def _search_cells(ctx, dis):
     seen = {v['signature'] for v in ctx.violations}
     for c, ev in zip(extra, evs):
         ctx.count('search-cell-cases')
+        for sig, what in ev['viol']:
+            if sig not in seen:
+                seen.add(sig)
+                sc = _shrink(c, sig)
+                ctx.violate(sig, _what(sc, sig, what), sc)
+
+
+def _search_rings(ctx, dis):
+    """failing-input search for any grid disagreement: the first list of the disagreeing case is kept (so is its grid), the second
+    list is replaced by rings of partners around its points (8 directions, 0.3 and 0.9 match lengths) - every one of them is a
+    close pair the real spherematch must return; judged by the ordinary oracle."""
+    extra = []
+    def seamdist(c):
+        return min(min(a, 360.0 - a) * max(math.cos(math.radians(b)), 1e-3) / c['ml'] for a, b in zip(c['ra1'], c['dec1']))
+    cs_ = [d.get('case') for d in dis if isinstance(d.get('case'), dict) and 'ra1' in d.get('case') and d['case']['ra1']]
+    cs_ = sorted(cs_, key=seamdist)[:80] + cs_[:4]
+    for c in cs_:
+        ra2, dec2 = [], []
+        pts = sorted(zip(c['ra1'], c['dec1']), key=lambda t: min(t[0], 360.0 - t[0]) * max(math.cos(math.radians(t[1])), 1e-3))
+        for a, b in pts[:40]:
+            cd = max(math.cos(math.radians(b)), 1e-3)
+            for k in range(8):
+                for f in (0.3, 0.9):
+                    dd = b + f * c['ml'] * math.sin(k * math.pi / 4)
+                    if abs(dd) < 89.999:
+                        ra2.append(float((a + f * c['ml'] * math.cos(k * math.pi / 4) / cd) % 360.0))
+                        dec2.append(float(dd))
+        if ra2:
+            extra.append(dict(c, kind='search-ring', ra2=ra2, dec2=dec2, mm=0))
+    if not extra:
+        return
+    with _pool() as pool:
+        evs = pool.map(_eval, extra, chunksize=1)
+    seen = {v['signature'] for v in ctx.violations}
+    for c, ev in zip(extra, evs):
+        ctx.count('search-ring-cases')
         for sig, what in ev['viol']:
             if sig not in seen:
                 seen.add(sig)
